@@ -245,6 +245,7 @@ CheckWalk(e) ==
        ELSE IF ~keysOk
          THEN Say("FAIL", e.prop, e, "after_key is not the last returned key / not absent exactly on the last page", "")
        ELSE IF ~sizesOk THEN Say("FAIL", e.prop, e, "short page inside the walk or empty last page", "")
+       ELSE IF e.relonly THEN TRUE    \* interval not representable in quarter units: relational clauses only
        ELSE Report(e, devs, "unpaged composite buckets differ from the reference computation", "")
 
 Judge(e) ==
